@@ -335,6 +335,11 @@ func c06History(c *vlib.Ctx) {
 			return
 		}
 		res := vlib.RunWorker("c06hist", []string{start, c.Tier, dir, "A"}, nil)
+		if res.ExternalKill {
+			rmAll(dir)
+			c.Cap("history worker (instance_id_start=" + start + ") was killed from outside the harness; its histories were not completed")
+			continue
+		}
 		resB := vlib.RunWorker("c06hist", []string{start, c.Tier, dir, "B"}, nil)
 		rmAll(dir)
 		res.Lines = append(res.Lines, resB.Lines...)
